@@ -53,6 +53,26 @@ def cond(text: str) -> tuple[str, str]:
     return ("if" if pol else "ifnot"), canon(e)
 
 
+def _split_top(text: str) -> list[str]:
+    """Split `a, b` at the top-level comma (two operands)."""
+    depth = 0
+    quote = None
+    for i, ch in enumerate(text):
+        if quote:
+            if ch == quote:
+                quote = None
+            continue
+        if ch in "'\"":
+            quote = ch
+        elif ch in "([{":
+            depth += 1
+        elif ch in ")]}":
+            depth -= 1
+        elif ch == "," and depth == 0:
+            return [text[:i], text[i + 1:]]
+    return [text, ""]
+
+
 class Effect:
     __slots__ = ("kind", "target", "op", "value", "ctx", "seq")
 
@@ -76,6 +96,69 @@ class Effect:
 
     def text(self) -> str:
         return strip_ordinals(self.value or "")
+
+    def values_of(self, var: str) -> tuple[set, bool]:
+        """What the conditions this effect executes under leave for `var`, when they only compare it with constants
+        (`==`, `!=`, `in`, `not in` - in either polarity): -> (constants it may equal, whether any other value is possible).
+        A finite-domain decision: `var in ('a', 'b')` and `not var == 'a'` leave ({'b'}, False)."""
+        allowed: set | None = None       # None = everything
+        excluded: set = set()
+        for c in self.ctx:
+            pol, _, test = c.partition(" ")
+            m = re.fullmatch(r"cmp\[(Eq|In)\]\((.*)\)", test)
+            if not m:
+                continue
+            try:
+                if m.group(1) == "Eq":
+                    a, b = [x.strip() for x in _split_top(m.group(2))]
+                    if a == var:
+                        a, b = b, a
+                    if b != var:
+                        continue
+                    vals = {ast.literal_eval(a)}
+                else:
+                    a, b = [x.strip() for x in _split_top(m.group(2))]
+                    if a != var:
+                        continue
+                    vals = set(ast.literal_eval(b))
+            except (ValueError, SyntaxError):
+                continue
+            if pol == "if":
+                allowed = vals if allowed is None else allowed & vals
+            else:
+                excluded |= vals
+        if allowed is None:
+            return excluded and set() or set(), True   # only exclusions: some other value remains possible
+        return allowed - excluded, False
+
+    def selects(self, var: str, value) -> bool:
+        """The conditions pin `var` to exactly `value`."""
+        vals, other = self.values_of(var)
+        return not other and vals == {value}
+
+    def excludes(self, var: str, *values) -> bool:
+        """The conditions rule out every one of `values` for `var`."""
+        vals, other = self.values_of(var)
+        if not other:
+            return not (vals & set(values))
+        gone: set = set()
+        for c in self.ctx:
+            pol, _, test = c.partition(" ")
+            m = re.fullmatch(r"cmp\[(Eq|In)\]\((.*)\)", test)
+            if not m or pol != "ifnot":
+                continue
+            try:
+                a, b = [x.strip() for x in _split_top(m.group(2))]
+                if m.group(1) == "Eq":
+                    if a == var:
+                        a, b = b, a
+                    if b == var:
+                        gone.add(ast.literal_eval(a))
+                elif a == var:
+                    gone |= set(ast.literal_eval(b))
+            except (ValueError, SyntaxError):
+                continue
+        return set(values) <= gone
 
     def __repr__(self):
         return f"<{self.kind} {self.target or ''} {self.op or ''} {self.value or ''} | {' & '.join(self.ctx)}>"
